@@ -22,7 +22,7 @@ TRUSTED = ["vf/tok.py tokeniser"]
 
 def plan(tier, seed):
     q = tier == "quick"
-    tasks = pool.batches("gen", 1500 if q else 15000, 25) + pool.batches("tiny", 400 if q else 3000, 50) + pool.batches("corpus", len(workload.corpus()), 4)
+    tasks = pool.batches("gen", 1200 if q else 15000, 25) + pool.batches("tiny", 400 if q else 3000, 50) + pool.batches("corpus", len(workload.corpus()), 4) + pool.batches("modules", 150 if q else 2000, 25) + pool.batches("modscopes", 250 if q else 3000, 25)
     return dict(tasks=tasks, nworkers=14, time_cap=80 if q else 800)
 
 
@@ -59,6 +59,42 @@ def _vectors(r, k):
     return vs[:k]
 
 
+def _modscopes(r):
+    """Library modules whose registers belong to different kinds of scope: module-level variables, functions with
+    and without parameters / locals of their own, a main script with or without variables."""
+    mods = {}
+    main = ["from stationeers_pytrapic.symbols import *"]
+    loop = []
+    for name in r.sample(["counter", "pump", "lights"], r.randint(1, 2)):
+        L = ["from stationeers_pytrapic.symbols import *"]
+        gs = [f"{g}" for g in r.sample(["count", "level", "state", "total"], r.randint(1, 4))]
+        for g in gs:
+            L.append(f"{g} = {r.choice([str(r.randint(0, 9)), f'd{r.randrange(6)}.Setting + 1'])}")
+        for k in range(r.randint(1, 3)):
+            g = r.choice(gs)
+            par = r.random() < 0.3
+            L.append(f"def f{k}({'p' if par else ''}):")
+            L.append(f"    global {g}")
+            if r.random() < 0.3:
+                L.append(f"    t = d{r.randrange(6)}.Setting * 2")
+                L.append(f"    {g} = {g} + t")
+            else:
+                L.append(f"    {g} += {'p' if par else r.randint(1, 5)}")
+            if r.random() < 0.6:
+                L.append(f"    d{r.randrange(6)}.Setting = {r.choice(gs)}")
+            loop.append(f"    {name}.f{k}({r.randint(1, 9) if par else ''})")
+        if r.random() < 0.5:
+            loop.append(f"    db.Setting = {name}.{r.choice(gs)}")
+        mods[name] = "\n".join(L) + "\n"
+        main.append(f"from library import {name}")
+    if r.random() < 0.4:
+        main.append(f"x = d{r.randrange(6)}.Setting")
+        loop.append("    d0.Setting = x")
+    r.shuffle(loop)
+    mods[""] = "\n".join(main + ["while True:", "    yield_()"] + loop) + "\n"
+    return mods
+
+
 def gen_case(task, i):
     st = task["stream"]
     r = rng(seed_env(), ID, st, i, "v")
@@ -68,6 +104,13 @@ def gen_case(task, i):
     if st == "corpus":
         c = workload.corpus_case(i)
         return dict(src=c["src"], vectors=_vectors(r, 8), stream=st)
+    if st == "modules":
+        from . import c13
+
+        multi, _ = c13.render(c13.gen_case(dict(stream="split"), i))
+        return dict(src=multi, vectors=_vectors(r, 4), stream=st)
+    if st == "modscopes":
+        return dict(src=_modscopes(r), vectors=_vectors(r, 4), stream=st)
     body = TINY[i % len(TINY)]
     if i >= len(TINY) and r.random() < 0.5:
         n = r.randrange(1, 20)
